@@ -151,10 +151,20 @@ func run(s Script, v *vt.V) {
 					if perr == nil {
 						_, perr = w.Write(rest)
 					}
+					id := w.ID()
 					if perr == nil {
 						_, perr = w.Commit(decl.Digest)
 					}
 					w.Close()
+					if perr == nil && !bad && len(st.Parts)%2 == 1 {
+						// the session is resumed after its commit and written to: what was
+						// committed under the digest must not change
+						if w2, err := reg.PushBlobChunkedResume(ctx, repo, id, -1, 0); err == nil {
+							w2.Write(bytes.Repeat([]byte{0xEE}, len(data)+3))
+							w2.Close()
+							v.Class("write-after-commit")
+						}
+					}
 				}
 			case "singlePost":
 				if st.Bad >= 2 {
